@@ -1,5 +1,5 @@
 import Pfb.DriverUtil
-import Pfb.C12.Model
+import Pfb.C12.Lemmas
 open Lean Pfb Pfb.Drv Pfb.C12
 
 /-! Line-protocol driver for C12 (JSON glue: trusted, not part of the model). -/
@@ -109,10 +109,14 @@ def keyJ : Key → Json
 
 def keysJ (c : Cache) : Json := Json.arr (c.map fun kv => keyJ kv.1).toArray
 
-def filesOf (c : Cache) : Json :=
-  match c.findSome? fun kv => match kv.1 with | .files fs => some fs | _ => none with
-  | some fs => pathsJ fs
-  | none => Json.null
+/-- The file list a fresh lookup loads (`null` when the search path itself is rejected). -/
+def filesOf (w : World) (q : Query) : Json :=
+  match targetDirname w q.target with
+  | .error _ => Json.null
+  | .ok d0 =>
+    match getPythonPath w q.env.pp (defaultPath w) (firstDirR w d0.reverse) with
+    | .ok fs => pathsJ fs
+    | .error _ => Json.null
 
 def histJ (w : World) : Cache → List Query → List Json
   | _, [] => []
@@ -136,7 +140,7 @@ def handle (j : Json) : Except String Json := do
     let hists ← (← jarr j "histories").toList.mapM fun h => do (← h.getArr?).toList.mapM queryOf
     let fresh := queries.map fun q =>
       let r := getDefault w [] q
-      Json.mkObj [("db", dbJ r.1), ("files", filesOf r.2), ("keys", keysJ r.2)]
+      Json.mkObj [("db", dbJ r.1), ("files", filesOf w q), ("keys", keysJ r.2)]
     let hs := hists.map fun h => Json.arr (histJ w [] h).toArray
     pure (Json.mkObj [("sorted", Json.bool (sortedNode root)), ("fresh", Json.arr fresh.toArray),
                       ("hist", Json.arr hs.toArray)])
